@@ -116,7 +116,7 @@ func (x *Exec) defineUFun(fi *ufunInfo) {
 	hi := mk(fi.rsort, fname, append([]Term{mk("Fuel", "fS", ly)}, args...)...)
 	lo := mk(fi.rsort, fname, append([]Term{ly}, args...)...)
 	c.Raw(fmt.Sprintf("axiom.%s.syn", u.Name), fmt.Sprintf("(assert (forall (%s) (! (= %s %s) :pattern (%s))))", strings.Join(decl, " "), hi.S, lo.S, hi.S))
-	env := &Env{x: x, st: nil, vars: vars, fuel: ly}
+	env := &Env{x: x, st: nil, vars: vars, fuel: ly, specPkg: u.Pkg}
 	saved := c.qscope
 	var local []Term
 	c.qscope = &local
@@ -143,7 +143,7 @@ func (x *Exec) ufunInfo(u *UFun) *ufunInfo {
 	if x.ufuns == nil {
 		x.ufuns = map[string]*ufunInfo{}
 	}
-	if fi, ok := x.ufuns[u.Name]; ok {
+	if fi, ok := x.ufuns[u.Pkg+"."+u.Name]; ok {
 		return fi
 	}
 	c := x.c
@@ -173,7 +173,7 @@ func (x *Exec) ufunInfo(u *UFun) *ufunInfo {
 	}
 	fi.rtype = T
 	fi.rsort = c.leaves(T)[0].sort
-	x.ufuns[u.Name] = fi
+	x.ufuns[u.Pkg+"."+u.Name] = fi
 	if u.Def != nil {
 		fi.fuel = true
 		fi.sorts = append([]Sort{"Fuel"}, fi.sorts...)
@@ -218,7 +218,7 @@ func (x *Exec) ufunInfo(u *UFun) *ufunInfo {
 			if fidx > 0 {
 				sfx = "b"
 			}
-			env := &Env{x: x, st: nil, vars: vars, fuel: fuelT}
+			env := &Env{x: x, st: nil, vars: vars, fuel: fuelT, specPkg: u.Pkg}
 			saved := c.qscope
 			var local []Term
 			c.qscope = &local
@@ -352,7 +352,7 @@ func (x *Exec) lemmaObligations(fi *ufunInfo, ai int, ax *UAxiom) {
 		return vars, decl
 	}
 	evalP := func(vars map[string]Value, fuel Term) Term {
-		env := &Env{x: x, st: nil, vars: vars, fuel: fuel}
+		env := &Env{x: x, st: nil, vars: vars, fuel: fuel, specPkg: u.Pkg}
 		saved := c.qscope
 		var local []Term
 		c.qscope = &local
@@ -382,7 +382,7 @@ func (x *Exec) lemmaObligations(fi *ufunInfo, ai int, ax *UAxiom) {
 		}
 		if len(ax.Triggers) > 0 {
 			var ps []string
-			env := &Env{x: x, st: nil, vars: ihVars, fuel: fuel}
+			env := &Env{x: x, st: nil, vars: ihVars, fuel: fuel, specPkg: u.Pkg}
 			for _, te := range ax.Triggers {
 				var local []Term
 				c.qscope = &local
